@@ -14,11 +14,11 @@ A few instances are spelled out for the planes that have their own event detecti
 namespace RV.Props.ExecutorX
 open RV.Arith RV.BatchCtx RV.Executor RV.ExecutorX RV.Oracle.ExecutorX
 
-/-- the plane serving a `PlaneId`, with its world type and predicates, is lawful — all seven ids -/
+/-- the plane serving a `PlaneId`, with its world type and predicates, is lawful — all seven ids (`dsPartition` and `stsLike` share `stsPlane`) -/
 theorem every_plane_lawful :
     Laws csPlane csPreds ∧ Laws pdepPlane pdepPreds ∧ Laws stsPlane stsPreds ∧
-    (∀ k, Laws (bgPlane k) (bgPreds k)) ∧ Laws canaryPlane canaryPreds ∧ Laws rsPlane rsPreds :=
-  ⟨csLaws, pdepLaws, stsLaws, bgLaws, canaryLaws, rsLaws⟩
+    (∀ k, Laws (bgPlane k) (bgPreds k)) ∧ Laws canaryPlane canaryPreds :=
+  ⟨csLaws, pdepLaws, stsLaws, bgLaws, canaryLaws⟩
 
 /-- `UpgradeBatch` is monotone and within the batch for every plane (in the region `expoOK` of the plane's own exposure theorems) -/
 theorem every_plane_upgrade_lawful :
